@@ -22,7 +22,7 @@ def prepare():
 
 
 def run(tier, seed, t0):
-    data, meta = gen()
+    data, meta = gen(4 if tier == "quick" else 5)   # 5x5 lattice (625 segments); thorough: 6x6 (1 296 segments, slopes k/5)
     out = os.path.join(vlib.BUILD, "work", PID)
     os.makedirs(out, exist_ok=True)
     nrandom, nmaps = (20000, 3) if tier == "quick" else (150000, 12)
@@ -32,15 +32,16 @@ def run(tier, seed, t0):
     v = vlib.Verdict(PID)
     vlib.classify(v, events, mism, describe)
     rc = v.finish()
+    npts = {625: 25, 1296: 36}.get(meta["lines"], 25)
     sample_rows = [json.loads(l) for l in open(data).readlines()[37:38]]
     cov = {
         "states": meta["distinct"] + r.distinct,
         "transitions": meta["generated"] + r.generated,
         "traces_validated_against_impl": 1,
         "evaluations": summ["evaluations"] + summ["recorded"],
-        "distinct_nontrivial": meta["lines"] * 625 + 625 * 25,
+        "distinct_nontrivial": meta["lines"] * meta["lines"] + meta["lines"] * npts,
         "rule": "Gen_C19 enumerates every ordered pair of segments (degenerate included) and every (segment, point) "
-                "triple on the 5x5 lattice with its L1 answers, and checks KernelImpl = Kernel (T1) on all of them; the "
+                "triple on the 5x5 lattice (thorough tier: 6x6, 1 296 segments) with its L1 answers, and checks KernelImpl = Kernel (T1) on all of them; the "
                 "replayer evaluates each under %d orbit maps; distinct_nontrivial counts distinct lattice (segment, "
                 "segment) pairs plus (segment, point) triples; a further seeded random trace (|coord| <= 1000, collinear "
                 "carriers, shared endpoints, near-collinear) is recorded from the real code and judged by Trace_C19" % summ["maps"],
@@ -55,10 +56,10 @@ def run(tier, seed, t0):
         "recorded_events": summ["recorded"], "events_judged_by_tlc": len(events),
         "mismatches_vs_L1": len(mism), "known_finding_hits": v.known_hits,
         "generator_cached": meta.get("cached", False),
-        "spec_theorems": "T1 (KernelImpl = Kernel on all 625x625 pairs and 625x25 triples), T1sym (SegInter symmetric, contains => intersects)",
+        "spec_theorems": "T1 (KernelImpl = Kernel on all 625x625 pairs and 625x25 triples; thorough 1296x1296 and 1296x36), T1sym (SegInter symmetric, contains => intersects)",
     }
     vlib.write_evidence(PID, tier, seed, t0, cov, [vlib.A_FLOAT, vlib.TOOLS,
-                        "small scope: 5x5 lattice exhaustively; larger coordinates only through the orbit maps and the random trace"],
+                        "small scope: 5x5 (thorough 6x6) lattice exhaustively; larger coordinates only through the orbit maps and the random trace"],
                         len(v.violations))
     return rc
 
